@@ -70,9 +70,17 @@ def run(ctx):
                   site=ctx.site(ci, c.node), detail={'argument': tq.text(a), 'condition': [tq.text(x[0]) for x in c.pc]})
     cl = ctx.func('ikesacontroller.IkeSaController.close')
     CL = ctx.sval(cl)
+    last_flush = 0
     for name in ('flush_policies', 'flush_sas'):
         ns = CL.calls_to(qual='xfrm.Xfrm.' + name)
         ctx.check(any(not c.pc for c in ns), 'Y1', 'close() calls %s on every path' % name, key=('Y1', 'close', name), site=ctx.site(cl, cl.node))
+        last_flush = max([last_flush] + [c.seq for c in ns if not c.pc][:1])
+    # ... and first: close() can be called (SIGINT) before main_loop has created the sockets it also closes; whatever else it does comes
+    # after the two flushes, so that a failure there cannot leave the policies installed
+    before = [c for c in CL.calls if c.seq < last_flush and not (c.callee or '').startswith(('logging.', 'xfrm.Xfrm.flush_')) and
+              not (isinstance(c.callee, str) and c.callee.startswith('method.') and tq.text(c.recv or NONE).startswith('logging'))]
+    ctx.check(not before, 'Y1', 'close() flushes the SPD and the SAD before anything else that can fail', key=('Y1', 'close', 'flush-first'),
+              site=ctx.site(cl, cl.node), detail={'runs before the flushes': [tq.text(c.term, 80) for c in before]})
     py = prog.module('pyikev2')
     from ..sval import module_body
     MB = module_body(prog, res, py)
@@ -250,6 +258,8 @@ def run(ctx):
                   detail={'returns': [tq.text(t, 160) for _, t in rets], 'hand-over condition': [tq.text(a[0], 120) for a in d.pc]})
 
     # ---------------------------------------------------------------- Y4 IkeSa.process_acquire
+    # "with that entry's proposal": the entry is still what the configuration said when the second ACQUIRE for it arrives
+    common.config_not_mutated(ctx, 'Y4')
     ia = ctx.func('ikesa.IkeSa.process_acquire')
     I = ctx.sval(ia)
     ps = ia.call_params()
